@@ -130,7 +130,7 @@ func c04Gen(seed uint64, idx int, maxFaults int) *c04Case {
 				c.MustReject = s
 			}
 		}
-		switch kind := r.Intn(14); kind {
+		switch kind := r.Intn(15); kind {
 		case 0:
 			ft.Kind = "lost-file"
 			gone[fi] = true
@@ -211,6 +211,18 @@ func c04Gen(seed uint64, idx int, maxFaults int) *c04Case {
 			nl := append([]idlgen.Line(nil), lines[fi][:li+1]...)
 			nl = append(nl, l)
 			lines[fi] = append(nl, lines[fi][li+1:]...)
+		case 14:
+			// misdirected write: the contents of two files of the set are exchanged
+			ft.Kind = "swapped-files"
+			if len(m.Files) < 2 {
+				continue
+			}
+			fj := r.Intn(len(m.Files))
+			if fj == fi {
+				fj = (fi + 1) % len(m.Files)
+			}
+			ft.Note = "contents exchanged with " + m.Files[fj].Path
+			lines[fi], lines[fj] = lines[fj], lines[fi]
 		case 13:
 			// a larger extent written twice: a whole definition (all records from its opening to its
 			// closing one) appears a second time -> duplicate global name
